@@ -1,1 +1,118 @@
-// harness bodies for h2 src/proto/streams/store.rs (compiled in-crate as `verif_h`, feature "verif")
+// harness bodies for h2 src/proto/streams/store.rs
+use super::*;
+
+/// Slab-only insertion: the id map is left untouched (no id lookup is needed when
+/// the operation under test reaches the record only through its `Key`/`Ptr`).
+pub(crate) fn insert_slab_only(store: &mut Store, val: Stream) -> Key {
+    let stream_id = val.id;
+    let index = SlabIndex(store.slab.insert(val) as u32);
+    Key { index, stream_id }
+}
+pub(crate) fn slab_contains(store: &Store, key: Key) -> bool {
+    store.slab.contains(key.index.0 as usize)
+}
+pub(crate) fn slab_len(store: &Store) -> usize {
+    store.slab.len()
+}
+pub(crate) fn ids_len(store: &Store) -> usize {
+    store.ids.len()
+}
+pub(crate) fn ids_contains(store: &Store, id: StreamId) -> bool {
+    store.ids.contains_key(&id)
+}
+pub(crate) fn key_index(key: Key) -> u32 {
+    key.index.0
+}
+pub(crate) fn queue_is_empty<N: Next>(q: &Queue<N>) -> bool {
+    q.indices.is_none()
+}
+pub(crate) fn queue_head<N: Next>(q: &Queue<N>) -> Option<Key> {
+    q.indices.map(|i| i.head)
+}
+
+/// unreachability stub for `Store::find_mut`
+pub(crate) fn stub_find_mut_unreachable<'a>(_s: &'a mut Store, _id: &StreamId) -> Option<Ptr<'a>> {
+    panic!("UNREACHABLE-STUB Store::find_mut")
+}
+
+/// C01.aba / C19.key: after a record is removed and its slab slot reused by a
+/// different stream, resolving the old key panics ("dangling store key"); it never
+/// yields the new stream's record.  ids symbolic (any two distinct non-zero ids).
+pub fn c19_key_stale_never_aliases() {
+    let mut store = Store::new();
+    let a: u32 = kani::any();
+    let b: u32 = kani::any();
+    kani::assume(a >= 1 && a <= 0x7fff_ffff && b >= 1 && b <= 0x7fff_ffff && a != b);
+    let key_a = insert_slab_only(&mut store, Stream::new(StreamId::from(a), 0, 0));
+    {
+        let ptr = store.resolve(key_a);
+        let removed = ptr.remove();
+        assert!(removed == StreamId::from(a));
+    }
+    let key_b = insert_slab_only(&mut store, Stream::new(StreamId::from(b), 0, 0));
+    assert!(key_index(key_a) == key_index(key_b), "harness expects the slab slot to be reused");
+    assert!(store[key_b].id == StreamId::from(b));
+    kani::cover!(true, "end");
+    // the stale key:
+    let s = &store[key_a];
+    let _ = s.id;
+    assert!(false, "MARK stale key resolved to a record");
+}
+
+/// same through the mutable path (`Ptr` deref_mut)
+pub fn c19_key_stale_never_aliases_mut() {
+    let mut store = Store::new();
+    let a: u32 = kani::any();
+    let b: u32 = kani::any();
+    kani::assume(a >= 1 && a <= 0x7fff_ffff && b >= 1 && b <= 0x7fff_ffff && a != b);
+    let key_a = insert_slab_only(&mut store, Stream::new(StreamId::from(a), 0, 0));
+    store.resolve(key_a).remove();
+    let _key_b = insert_slab_only(&mut store, Stream::new(StreamId::from(b), 0, 0));
+    kani::cover!(true, "end");
+    let mut ptr = store.resolve(key_a);
+    ptr.is_counted = true;
+    assert!(false, "MARK stale key resolved to a record");
+}
+
+/// C19.key: a key whose slot is vacant (never reused) also panics.
+pub fn c19_key_vacant_slot_panics() {
+    let mut store = Store::new();
+    let key_a = insert_slab_only(&mut store, Stream::new(StreamId::from(1), 0, 0));
+    store.resolve(key_a).remove();
+    kani::cover!(true, "end");
+    let _ = store[key_a].id;
+    assert!(false, "MARK stale key resolved to a record");
+}
+
+/// `Queue` (intrusive per-stream links) is FIFO over two records and never loses a
+/// stream: push/push_front/pop sequences of length 3 on the `pending_send` links.
+pub fn c01_order_store_queue() {
+    let mut store = Store::new();
+    let k1 = insert_slab_only(&mut store, Stream::new(StreamId::from(1), 0, 0));
+    let k2 = insert_slab_only(&mut store, Stream::new(StreamId::from(3), 0, 0));
+    let mut q: Queue<stream::NextSend> = Queue::new();
+    let first_is_1: bool = kani::any();
+    let front: bool = kani::any();
+    let (ka, kb) = if first_is_1 { (k1, k2) } else { (k2, k1) };
+    assert!(q.push(&mut store.resolve(ka)));
+    assert!(!q.push(&mut store.resolve(ka)), "double push must be refused");
+    if front {
+        assert!(q.push_front(&mut store.resolve(kb)));
+    } else {
+        assert!(q.push(&mut store.resolve(kb)));
+    }
+    let p1 = q.pop(&mut store).map(|p| p.key());
+    let p2 = q.pop(&mut store).map(|p| p.key());
+    let p3 = q.pop(&mut store).map(|p| p.key());
+    if front {
+        assert!(p1 == Some(kb) && p2 == Some(ka), "push_front must be served first");
+    } else {
+        assert!(p1 == Some(ka) && p2 == Some(kb), "Queue is not FIFO");
+    }
+    assert!(p3.is_none() && q.is_empty());
+    assert!(!store[k1].is_pending_send && !store[k2].is_pending_send);
+    assert!(store[k1].next_pending_send.is_none() && store[k2].next_pending_send.is_none());
+    kani::cover!(front, "front");
+    kani::cover!(true, "end");
+    std::mem::forget(store);
+}
